@@ -1224,6 +1224,147 @@ fn emit_instance_case(id: &str, family: &str, variant: &str, bases: &[&str], fns
     }
 }
 
+// ------------------------------------------------------------------ part D: identifier-level collisions (in `gv c19inst`)
+//
+// Two source names that a plausible escape would map to one Go identifier — a Go keyword / predeclared
+// word `w` next to `w_`, `w__`, `w0`, `w_1`, `goml_w`, `W`; names that differ only in characters an escape
+// might drop or fold — BOTH declared in one Go scope, for every item kind that is emitted under
+// `go_ident`, with different observable behaviour.  `IDENT` row: the REAL `go_ident` of both names and the
+// identifiers the real Go AST declares.
+
+/// (kind, program with @A@ / @B@, where go_ident(A) must be declared: "top" | "field:<struct>" | "-")
+const IDENT_KINDS: &[(&str, &str, &str)] = &[
+    ("fn", "fn @A@(k: int32) -> int32 { k + 1 }\nfn @B@(k: int32) -> int32 { k * 2 }\nfn main() -> unit { string_println(int32_to_string(@A@(10) * 100 + @B@(10))) }\n", "top"),
+    ("struct", "struct @A@ { p: int32 }\nstruct @B@ { q: string }\nfn main() -> unit { let x = @A@ { p: 1 }; let y = @B@ { q: \"s\" }; string_println(int32_to_string(x.p) + y.q) }\n", "top"),
+    ("enum", "enum @A@ { Aa, Ab(int32) }\nenum @B@ { Ba(string) }\nfn main() -> unit { let x = @A@::Ab(3); let y = @B@::Ba(\"t\"); let n = match x { @A@::Aa => 0, @A@::Ab(v) => v, }; let m = match y { @B@::Ba(w) => w, }; string_println(int32_to_string(n) + m) }\n", "top"),
+    ("variant", "enum Ee { @A@(int32), @B@(string), Zz }\nfn show(e: Ee) -> string { match e { Ee::@A@(v) => \"a\" + int32_to_string(v), Ee::@B@(w) => \"b\" + w, Ee::Zz => \"z\", } }\nfn main() -> unit { string_println(show(Ee::@A@(1)) + show(Ee::@B@(\"s\")) + show(Ee::Zz)) }\n", "top"),
+    ("field", "struct Ss { @A@: int32, @B@: int32 }\nfn main() -> unit { let s = Ss { @A@: 1, @B@: 20 }; let Ss { @A@: p, @B@: q } = s; string_println(int32_to_string(s.@A@ + s.@B@ * 10 + p * 1000 + q * 10000)) }\n", "field:Ss"),
+    ("trait", "trait @A@ { fn mm(Self) -> int32; }\ntrait @B@ { fn mm(Self) -> int32; }\nimpl @A@ for int32 { fn mm(self: int32) -> int32 { self + 1 } }\nimpl @B@ for int32 { fn mm(self: int32) -> int32 { self * 2 } }\nfn main() -> unit { let n: int32 = 10; let d: dyn @A@ = n; let e: dyn @B@ = n; string_println(int32_to_string(@A@::mm(n) + @B@::mm(n) * 100 + @A@::mm(d) * 10000 + @B@::mm(e) * 1000000)) }\n", "-"),
+    ("trait-method", "trait Tt { fn @A@(Self) -> int32; fn @B@(Self) -> int32; }\nimpl Tt for int32 { fn @A@(self: int32) -> int32 { self + 1 } fn @B@(self: int32) -> int32 { self * 2 } }\nfn via[T: Tt](x: T) -> int32 { Tt::@A@(x) + Tt::@B@(x) * 100 }\nfn main() -> unit { let n: int32 = 10; let d: dyn Tt = n; string_println(int32_to_string(via(n) + Tt::@A@(d) * 10000 + Tt::@B@(d) * 1000000)) }\n", "field:dyn__Tt_vtable"),
+    ("inherent-method", "struct Pp { v: int32 }\nimpl Pp { fn @A@(self: Pp) -> int32 { self.v + 1 } fn @B@(self: Pp) -> int32 { self.v * 2 } }\nfn main() -> unit { let p = Pp { v: 10 }; string_println(int32_to_string(p.@A@() + Pp::@B@(p) * 100)) }\n", "-"),
+    ("extern-type", "extern type @A@\nextern type @B@\nextern \"go\" \"time\" unix(secs: int32, nanos: int32) -> @A@\nextern \"go\" \"time\" duration(nanos: int32) -> @B@\nextern \"go\" \"fmt\" \"Sprintf\" fa(format: string, value: @A@) -> string\nextern \"go\" \"fmt\" \"Sprintf\" fb(format: string, value: @B@) -> string\nfn main() -> unit { let _ = string_println(fa(\"%v\", unix(1, 2))); string_println(fb(\"%v\", duration(3))) }\n", "top"),
+    ("extern-fn", "extern \"go\" \"strings\" \"ToUpper\" @A@(s: string) -> string\nextern \"go\" \"strings\" \"ToLower\" @B@(s: string) -> string\nfn main() -> unit { string_println(@A@(\"aB\") + @B@(\"cD\")) }\n", "-"),
+    ("local", "fn ff(@A@: int32, @B@: int32) -> int32 { @A@ * 10 + @B@ }\nfn main() -> unit { let @A@ = 1; let @B@ = 2; let g = |z: int32| z + @A@ * 10 + @B@; string_println(int32_to_string(ff(@A@, @B@) * 1000 + g(0))) }\n", "-"),
+    ("type-parameter", "struct Dd[@A@, @B@] { l: @A@, r: @B@ }\nfn mk[@A@, @B@](x: @A@, y: @B@) -> Dd[@A@, @B@] { Dd { l: x, r: y } }\nfn main() -> unit { let d = mk(1, \"s\"); string_println(int32_to_string(d.l) + d.r) }\n", "-"),
+];
+
+fn cap(w: &str) -> String {
+    let mut c = w.chars();
+    match c.next() {
+        Some(f) => f.to_ascii_uppercase().to_string() + c.as_str(),
+        None => String::new(),
+    }
+}
+
+/// (pattern id, sibling of `w`)
+fn siblings(w: &str) -> Vec<(&'static str, String)> {
+    vec![
+        ("w_", format!("{}_", w)),
+        ("w__", format!("{}__", w)),
+        ("w0", format!("{}0", w)),
+        ("w_1", format!("{}_1", w)),
+        ("goml_w", format!("goml_{}", w)),
+        ("Cap", cap(w)),
+        ("_goml_w", format!("_goml_{}", w)),
+        ("_w", format!("_{}", w)),
+    ]
+}
+
+/// word-independent pairs: characters an escape might drop, fold or confuse with its own output
+const FOLD_PAIRS: &[(&str, &str, &str)] = &[
+    ("a_b/a__b", "a_b", "a__b"),
+    ("a_b/a_B", "a_b", "a_B"),
+    ("ab/ab_", "ab", "ab_"),
+    ("ab/aB", "ab", "aB"),
+    ("hex-lookalike", "a_x3a_b", "a_x3ab"),
+    ("hex-lookalike-2", "x_x5f_y", "x__y"),
+    ("prefix-lookalike", "goml_ab", "ab"),
+    ("prefix-lookalike-2", "goml__ab", "goml_ab"),
+    ("digits", "a1", "a_1"),
+    ("double-underscore-local-shape", "a__1", "a"),
+];
+
+fn emit_ident_case(id: &str, kind: &str, pattern: &str, word: &str, an: &str, bn: &str, want: &str, src: &str, dir: &std::path::Path, out: &mut String) {
+    let ga = guarded(|| mangle::go_ident(an));
+    let gb = guarded(|| mangle::go_ident(bn));
+    match util::compile_text(dir, src) {
+        Outcome::Ok(c) => {
+            let rep = goscope::check(&c.go, relied());
+            let fails: Vec<S> = rep.failures.iter().map(|f| l(vec![a(f.kind), a(&f.name)])).collect();
+            // identifiers the real Go AST declares in the scope the two names share
+            let mut declared: Vec<String> = Vec::new();
+            if want == "top" {
+                declared = rep.toplevel.iter().map(|(n, _)| n.clone()).collect();
+            } else if let Some(sname) = want.strip_prefix("field:") {
+                for item in &c.go.toplevels {
+                    if let goast::Item::Struct(st) = item {
+                        if st.name == sname {
+                            declared = st.fields.iter().map(|f| f.name.clone()).collect();
+                        }
+                    }
+                }
+            }
+            let _ = writeln!(out, "{}\tEXPECT\tnone\t", id);
+            let _ = writeln!(out, "{}\tSRC\t{}", id, esc_line(src));
+            let _ = writeln!(
+                out,
+                "{}\tIDENT\t{}\t{}\t{}\t{}\t{}\t{}\t{}\t{}\t{}\t{}\t{}",
+                id, kind, pattern, word, an, bn, ga, gb, want, declared.join(" "), rep.shape.join(","), l(fails).to_text()
+            );
+            let impls = crate::c01::impls_table(&c.genv);
+            let _ = writeln!(out, "{}\tSTAGE\tcore\t{}", id, crate::c01::prog(crate::dump::core_file(&c.core), &impls).to_text());
+            let _ = writeln!(out, "{}\tSTAGE\tmono\t{}", id, crate::c01::prog(crate::dump::mono_file(&c.mono), &impls).to_text());
+            let _ = writeln!(out, "{}\tSTAGE\tgo\t{}", id, crate::godump::gfile(&c.go).to_text());
+        }
+        Outcome::Err(stage, msgs) => {
+            let _ = writeln!(out, "{}\tIDENT\t{}\t{}\t{}\t{}\t{}\t{}\t{}\t{}\t\t\t()", id, kind, pattern, word, an, bn, ga, gb, want);
+            let _ = writeln!(out, "{}\tREJECT\t{}\t{}\t{}", id, stage, esc_line(&msgs.join(" | ")), esc_line(src));
+        }
+        Outcome::Panic(m) => {
+            let _ = writeln!(out, "{}\tIDENT\t{}\t{}\t{}\t{}\t{}\t{}\t{}\t{}\t\t\t()", id, kind, pattern, word, an, bn, ga, gb, want);
+            let _ = writeln!(out, "{}\tPANIC\t{}\t{}", id, esc_line(&m), esc_line(src));
+        }
+    }
+}
+
+fn ident_cases(args: &util::Args, dir: &std::path::Path, out: &mut String) -> usize {
+    let thorough = args.tier == "thorough";
+    let mut n = 0;
+    let mut words: Vec<&str> = goscope::GO_KEYWORDS.to_vec();
+    words.extend(["len", "append", "panic", "println", "print", "any", "nil", "true", "false", "new", "make", "cap", "copy", "error", "iota", "int", "byte", "rune"]);
+    for (ki, (kind, tpl, want)) in IDENT_KINDS.iter().enumerate() {
+        // control: the same program with two ordinary names
+        let src = tpl.replace("@A@", "zqa").replace("@B@", "zqb");
+        emit_ident_case(&format!("ident/{}/control/zqa~zqb", kind), kind, "control", "-", "zqa", "zqb", want, &src, dir, out);
+        n += 1;
+        let (up_a, up_b) = ("Zqa", "Zqb");
+        let src = tpl.replace("@A@", up_a).replace("@B@", up_b);
+        emit_ident_case(&format!("ident/{}/control/Zqa~Zqb", kind), kind, "control", "-", up_a, up_b, want, &src, dir, out);
+        n += 1;
+        for (wi, w) in words.iter().enumerate() {
+            // an `extern type w` stands for the Go type `pkg.w`: a keyword there is the user's own invalid request
+            if *kind == "extern-type" && goscope::GO_KEYWORDS.contains(w) {
+                continue;
+            }
+            for (si, (pat, sib)) in siblings(w).iter().enumerate() {
+                // quick: the trailing-underscore sibling for every word, the others in rotation
+                if !thorough && si != 0 && (wi + ki + si + args.seed as usize) % 4 != 0 {
+                    continue;
+                }
+                let src = tpl.replace("@A@", w).replace("@B@", sib);
+                emit_ident_case(&format!("ident/{}/{}/{}~{}", kind, pat, w, sib), kind, pat, w, w, sib, want, &src, dir, out);
+                n += 1;
+            }
+        }
+        for (pat, x, y) in FOLD_PAIRS {
+            let src = tpl.replace("@A@", x).replace("@B@", y);
+            emit_ident_case(&format!("ident/{}/{}/{}~{}", kind, pat, x, y), kind, "fold", pat, x, y, want, &src, dir, out);
+            n += 1;
+        }
+    }
+    n
+}
+
 pub fn main_inst(args: &util::Args) {
     util::quiet_panics();
     let _ = std::fs::create_dir_all(&args.out);
@@ -1264,8 +1405,10 @@ pub fn main_inst(args: &util::Args) {
             n += 1;
         }
     }
+    let n_ident = ident_cases(args, &dir, &mut out);
+    n += n_ident;
     let _ = std::fs::remove_dir_all(&dir);
-    let _ = writeln!(out, "#FEATS\tpair_cases={} duo_cases={} programs={}", pair_cases().len(), duo_cases().len(), n);
+    let _ = writeln!(out, "#FEATS\tpair_cases={} duo_cases={} ident_kinds={} ident_programs={} programs={}", pair_cases().len(), duo_cases().len(), IDENT_KINDS.len(), n_ident, n);
     std::fs::write(args.out.join("c19inst.cases.tsv"), out).expect("write");
     println!("c19inst programs={}", n);
 }
